@@ -11,7 +11,7 @@ enum Mode { M_C01, M_C02, M_C03 };
 // resolver actions
 enum { A_VALUE, A_EXC, A_DROP, A_NOTHING, A_ASYNC_VALUE, A_ASYNC_THROW, A_COUNT };
 // waiter kinds
-enum { W_COAWAIT, W_HASVALUE, W_WAIT, W_SYNC, W_SUBSCRIBE, W_CALLBACK_AWAIT, W_POLL, W_COUNT };
+enum { W_COAWAIT, W_HASVALUE, W_WAIT, W_SYNC, W_SUBSCRIBE, W_CALLBACK_AWAIT, W_POLL, W_FORCE_WAIT_IN_CORO, W_OPERATOR_BOOL, W_COUNT };
 
 struct Res { uint8_t action, yields; };
 struct Wai { uint8_t kind, yields; };
@@ -46,7 +46,7 @@ inline Prog decode(hz::Reader &r, Mode m) {
 inline std::string describe(const Prog &p) {
     static const char *vt[] = {"int", "void", "move-only", "int&", "Counted"};
     static const char *act[] = {"value", "exception", "drop", "nothing", "async completes with value", "async throws"};
-    static const char *wk[] = {"co_await f", "co_await f.has_value()", "f.wait()", "f.sync()", "subscribe(custom awaiter)", "callback_await", "poll ready()"};
+    static const char *wk[] = {"co_await f", "co_await f.has_value()", "f.wait()", "f.sync()", "subscribe(custom awaiter)", "callback_await", "poll ready()", "force_wait() inside a coroutine", "if (f) ... *f (operator bool / operator*)"};
     hz::Desc d;
     d << "future<" << vt[p.vt] << ">, promise moved " << (unsigned)p.moves << "x, " << (p.resolvers_first ? "resolvers spawned first" : "waiters spawned first") << "; resolvers:";
     for (size_t i = 0; i < p.res.size(); i++) d << " R" << (unsigned)i << "[yield*" << (unsigned)p.res[i].yields << ", " << act[p.res[i].action] << "]";
@@ -188,6 +188,18 @@ cocls::async<void> waiter_hasvalue(Ctx<VT> &c, WRec &w) {
     w.code = code;
 }
 
+// a coroutine that blocks its thread on the future (force_wait: the documented way to do that inside a coroutine)
+template<int VT>
+cocls::async<void> waiter_force(Ctx<VT> &c, WRec &w) {
+    w.t_begin = hz::tick();
+    w.code = Ctx<VT>::guarded([&]() -> int {
+        if constexpr (VT == 1) { c.f.force_wait(); return 0; }
+        else return Tr<VT>::dec(c.f.force_wait());
+    });
+    w.resumes++; w.t_resume = hz::tick(); w.ready_at_resume = c.f.ready();
+    co_return;
+}
+
 template<int VT>
 struct CbAw : cocls::awaiter {
     WRec *w; Ctx<VT> *c;
@@ -250,6 +262,15 @@ void waiter_thread(Ctx<VT> &c, int i) {
                 pf->store(1, std::memory_order_release);
             }, c.f);
             while (!fired.load(std::memory_order_acquire)) vrt::yield();
+        } break;
+        case W_FORCE_WAIT_IN_CORO: { cocls::future<void> done = waiter_force<VT>(c, w).start(); done.wait(); } break;
+        case W_OPERATOR_BOOL: {
+            w.t_begin = hz::tick();
+            bool hv = (bool)c.f;                 // waits, then reports whether there is a value (no exception thrown)
+            w.resumes++; w.t_resume = hz::tick(); w.ready_at_resume = c.f.ready();
+            int code = c.observe();
+            if (hv != (code >= 0)) code = hv ? -6 : -5;      // operator bool is true for the value AND the exception state, false for no-value
+            w.code = code;
         } break;
         default: {  // W_POLL
             w.t_begin = hz::tick();
